@@ -354,7 +354,11 @@ func TestMissingNodesAndRepair(t *testing.T) {
 		deep := gen.Chance(rt, 8, "deep")
 		if deep {
 			// a trie that is dozens of nodes deep along one path: every prefix (in whole bytes) of one long key is a key
-			p := mptkit.GenFixedPath(rt, gen.Uniform(rt, 17, 32, "deeplen"), "deeppath")
+			dl := gen.Uniform(rt, 17, 32, "deeplen")
+			if gen.Chance(rt, 25, "verydeep") {
+				dl = gen.Uniform(rt, 65, 80, "verydeeplen") // more than 128 node levels
+			}
+			p := mptkit.GenFixedPath(rt, dl, "deeppath")
 			for i := 2; i <= len(p); i += 2 {
 				v := []byte{byte(i), 0xd0}
 				ops = append(ops, mptkit.Op{Kind: "ins", Path: p[:i], Val: fmt.Sprintf("%x", v)})
